@@ -22,3 +22,29 @@ Definition example_frame : tframe :=
              (KObj, [VNone; VStr "a b"])].
 Example example_in_domain : dom example_cfg example_frame = true.
 Proof. vm_compute. reflexivity. Qed.
+
+(* for ANY well-formed StoreFilter (the default one, or one with other markers) every missing-value marker is
+   decoded from its own text, and is therefore a good cell of an object column *)
+Theorem markers_decode : forall flt v, filter_wf flt = true -> is_marker v = true ->
+  decode_str flt (st (render_val flt v)) = v /\ cell_ok flt KObj v = true /\ is_sentinel flt (st (render_val flt v)) = true.
+Proof.
+  intros flt v H Hv. unfold filter_wf, marker_text in H.
+  apply andb_true_iff in H as [H H4]. apply andb_true_iff in H as [H H3]. apply andb_true_iff in H as [H1 H2].
+  apply andb_true_iff in H2 as [A2 B2]. apply negb_true_iff in A2.
+  apply andb_true_iff in H3 as [H3 C3]. apply andb_true_iff in H3 as [A3 B3]. apply negb_true_iff in A3, B3.
+  apply andb_true_iff in H4 as [H4 D4]. apply andb_true_iff in H4 as [H4 C4]. apply andb_true_iff in H4 as [A4 B4].
+  apply negb_true_iff in A4, B4, C4.
+  assert (E : decode_str flt (st (render_val flt v)) = v /\ is_sentinel flt (st (render_val flt v)) = true).
+  { destruct v as [| | | |[|]| | | | | | |]; try discriminate Hv; unfold decode_str, is_sentinel.
+    - rewrite A4, B4, C4, D4. split; reflexivity.
+    - rewrite A3, B3, C3. split; reflexivity.
+    - rewrite H1. split; reflexivity.
+    - rewrite A2, B2. split; reflexivity. }
+  destruct E as [E1 E2]. split; [exact E1|]. split; [|exact E2].
+  unfold cell_ok. rewrite E1, val_eqb_refl.
+  destruct v as [| | | |[|]| | | | | | |]; try discriminate Hv; reflexivity.
+Qed.
+
+(* the defaults of StoreFilter as they are in the source now are well formed *)
+Lemma default_filter_wf : filter_wf filter_default = true.
+Proof. vm_compute. reflexivity. Qed.
